@@ -22,6 +22,28 @@ Proof.
   rewrite nth_error_app2 by lia. rewrite Nat.sub_diag. simpl. rewrite set_nth_app_len. reflexivity.
 Qed.
 
+Lemma rank_push s c : Rank s -> (forall k, In k (kids c) -> k < List.length (heap s)) -> Rank (push s c).
+Proof.
+  intros HK Hkids. set (n := List.length (heap s)).
+  assert (Hsk : forall b, b <> n -> skids (push s c) b = skids s b).
+  { intros b Hb. unfold skids. rewrite cellD_push_ne by exact Hb. reflexivity. }
+  assert (Hskn : skids (push s c) n = kids c) by (unfold skids; unfold n; rewrite cellD_push_eq; reflexivity).
+  (* from an old node only old nodes are reached, along old edges *)
+  assert (Hback : forall a d, reach (push s c) a d -> live s a -> reach s a d).
+  { intros a d Hr. induction Hr as [a|a k d Hk Hr IH]; intros Hl; [apply reach_refl|].
+    rewrite Hsk in Hk by (unfold live in Hl; fold n in Hl; lia).
+    eapply reach_step; [exact Hk|]. apply IH. eapply rank_kid_live; eassumption. }
+  split.
+  - intros a k Hk. unfold live. rewrite heap_len_push. destruct (Nat.eq_dec a n) as [->|Ha].
+    + rewrite Hskn in Hk. apply Hkids in Hk. lia.
+    + rewrite (Hsk a Ha) in Hk. apply (rank_kid_live _ _ _ HK) in Hk. unfold live in Hk. lia.
+  - intros a k Hk Hr. destruct (Nat.eq_dec a n) as [->|Ha].
+    + rewrite Hskn in Hk. apply Hkids in Hk. apply Hback in Hr; [|exact Hk].
+      apply (reach_live _ _ _ HK Hk) in Hr. unfold live in Hr. fold n in Hr. lia.
+    + rewrite (Hsk a Ha) in Hk. apply (rank_acyc _ _ _ HK Hk). apply Hback; [exact Hr|].
+      eapply rank_kid_live; eassumption.
+Qed.
+
 Section Push.
   Variable H : pystr -> pystr.
   Variable ct : ctable.
@@ -51,9 +73,7 @@ Section Push.
     - intros i x Hx. rewrite Hreg in Hx. assert (Hxn := Hregn _ _ Hx). destruct (HR _ _ Hx) as [Hl Hi].
       split; [unfold live in *; unfold s'; rewrite heap_len_push; lia|].
       unfold id_of. rewrite (Hne x Hxn). exact Hi.
-    - intros b k Hk. destruct (Nat.eq_dec b n) as [->|Hb].
-      + unfold skids in Hk. rewrite Heq in Hk. apply Hkids. exact Hk.
-      + rewrite (Hsk b Hb) in Hk. apply HK; exact Hk.
+    - apply rank_push; assumption.
     - intros b Hb. destruct (Nat.eq_dec b n) as [->|Hbn]; [rewrite Heq in Hb; congruence|].
       rewrite (Hne b Hbn) in Hb. destruct (HP b Hb) as [A B].
       unfold attached. rewrite (Hdet b Hbn), (Hpar b Hbn). split; assumption.
@@ -64,7 +84,7 @@ Section Push.
       destruct (HL b Hlb0 Hab0) as [Hc Hs Hl Hcid]. constructor.
       + intros k f i Hin. rewrite (Hskw b Hbn) in Hin. destruct (Hc k f i Hin) as [A [B [C Dd]]].
         assert (Hkn : k <> n).
-        { assert (Hk : In k (skids s b)) by (apply in_skids; eauto). apply HK in Hk. unfold live in Hlb0. fold n in Hlb0. lia. }
+        { assert (Hk : In k (skids s b)) by (apply in_skids; eauto). apply (rank_kid_live _ _ _ HK) in Hk. unfold live in Hk. fold n in Hk. lia. }
         unfold attached. rewrite (Hdet k Hkn), (Hpar k Hkn), (Hne k Hkn). auto.
       + intros p Hp. rewrite (Hpar b Hbn) in Hp. destruct (Hs p Hp) as [f [Hf Hin]].
         assert (Hpn : p <> n).
@@ -72,9 +92,9 @@ Section Push.
         exists f. rewrite (Hne b Hbn), (Hskw p Hpn). split; assumption.
       + unfold id_of. rewrite (Hne b Hbn), Hreg. exact Hl.
       + rewrite (Hne b Hbn), Hcid. symmetry. unfold live in Hlb0. fold n in Hlb0.
-        apply tree_cid_local.
-        * intros b' Hb'. rewrite Hne by lia. split; reflexivity.
-        * intros b' k _. apply HK.
+        apply tree_cid_reach_local.
+        * exact HK.
+        * intros y Hy. apply (reach_live _ _ _ HK Hlb0) in Hy. unfold live in Hy. fold n in Hy. rewrite Hne by lia. split; reflexivity.
         * unfold fuel_of, s'. rewrite heap_len_push. fold n. lia.
         * unfold fuel_of. fold n. lia.
   Qed.
@@ -154,7 +174,7 @@ Section CFrame.
     intros [HR [HK [HP HL]]]. split; [|split; [|split]].
     - intros i x Hx. rewrite cf_reg in Hx. destruct (HR _ _ Hx) as [A B].
       split; [apply cf_live; exact A | rewrite cf_id; exact B].
-    - intros b k Hk. rewrite cf_skids in Hk. apply HK; exact Hk.
+    - eapply rank_same_kids; [exact (proj1 (proj2 CF)) | exact cf_skids | exact HK].
     - intros b Hb. rewrite cf_pid in Hb. destruct (HP b Hb) as [A B].
       unfold attached. rewrite cf_detached, cf_parent. split; assumption.
     - intros b Hl Ha. apply cf_live in Hl. unfold attached in Ha. rewrite cf_detached in Ha.
@@ -193,7 +213,7 @@ Section SetCid.
   Proof.
     intros HK Hl Hkids. unfold cid_ok.
     assert (CF : cframe s (set_cid H ct s a)) by apply cframe_upd.
-    rewrite (tree_cid_cframe _ _ a CF), (tree_cid_unfold H ct s a HK Hl).
+    rewrite (tree_cid_cframe _ _ a CF), (tree_cid_unfold H ct s a HK).
     unfold set_cid. rewrite cellD_upd, Nat.eqb_refl. apply Nat.ltb_lt in Hl. rewrite Hl. simpl.
     unfold cid_data. f_equal. f_equal. f_equal. apply kid_data_ext. intros k Hk. apply Hkids. exact Hk.
   Qed.
